@@ -3,6 +3,7 @@ import OdakProofs.Lemmas.PropagateLemmas
 import OdakModel.Propagator
 import OdakProofs.Lemmas.GenPropagator
 import OdakProofs.Lemmas.GenPropagatorObject5
+import OdakProofs.Lemmas.PropagatorObjectInst6
 
 /-! # C06 – the propagator forward model is history-independent and matches its documented model -/
 namespace Odak
@@ -353,5 +354,218 @@ theorem C06_gen_constructor_keeps_distances_and_powers_by_reference (E : PropOps
 
 /-- the regenerated state structure has exactly the reviewed attributes (a `self.x = ...` added anywhere in the class changes it) -/
 theorem C06_gen_object_attributes : propagatorFields = propObjFields := gen_propagatorFields_eq
+
+end Odak
+
+/-! ## The regenerated propagator object INSTANTIATED with the grid model (work package 16)
+  The theorems of the previous section are abstract over a record `PropOps` of uninterpreted tensor operations and ASSUME the array laws
+  `PropLaws`.  Here the record is `propOpsGrid` (`OdakModel/PropagatorObjectInst.lean`): every operation is a definition of the grid model -
+  the regenerated pad / crop index maps, the regenerated `custom` pipeline, the regenerated kernel dispatch and kernels, the regenerated
+  `generate_complex_field` / `calculate_amplitude` - on tensors `Ten ℝ` of any rank.  The laws are PROVED for it, so the call-list theorem of
+  the regenerated object and the documented-model theorem of the first section become ONE statement with no uninterpreted operation and no
+  assumed law: every forward call, after any history, returns `crop(ifft(fft(pad u) · H(λ_c, z_d) · A))`.  The same record at `Float` is run
+  against the real `odak.learn.wave.propagator` on every check (`gpi_seq`, `harness/props/genobjects_inst.py`). -/
+namespace Odak
+open Gen CGrid
+
+/-- **the array laws the object theorems assume hold in the grid model** (reading a slot after a store - for every buffer, index path and
+    stored value -, the truth value of a stored flag, a new flag buffer is all false): no assumption is left -/
+theorem C06_gen_object_laws_hold_in_the_grid_model : PropLaws (propOpsGrid : PropOps (Ten ℝ) ℝ) := propLaws_propOpsGrid
+
+/-- **the documented model, for every call list on the REGENERATED object**.  A propagator is built by the regenerated `__init__`
+    (resolution `[h, w]`, any wavelengths, distances, laser powers, aperture; a propagation type whose regenerated kernel at the padded size
+    is `kern λ z`).  After ANY list `pre` of calls - forward calls on any channels and planes in any order, reconstructions, `set_laser_powers`,
+    `get_laser_powers`, `set_aperture` - a forward call on an `[h, w]` field `u` with channel `c` and plane `d` returns
+
+        crop_center( ifft2( ifftshift( (H · A) · fftshift( fft2( zero_pad(u) ) ) ) ) )
+
+    with `H = objKernelGrid ..`: the regenerated kernel of the wavelength of channel `c` and of the distance element `d` of the distances
+    tensor (for 'back and forth' the product of the kernels of the zero-mode distance and of the way back), WITHOUT the aperture, and `A` the
+    aperture in force: the constructor's, changed only by the `set_aperture` calls of `pre` (`apGridStep`).  Nothing the earlier calls cached
+    enters: the kernel buffer of the object is read on a hit, and the slot holds exactly this kernel.
+    Domain: `5 ≤ w` (torch `zero_pad` reads a 2-D field narrower than 5 as channels-last, `Layout.Accepts` of C08: a propagator with such a
+    resolution raises on every call), `resolution_factor = 1` (the regenerated kernel dispatch is the one for scale 1), non-negative channel
+    and plane ids in range (Python's negative ids are not modelled), no `get_kernels` in the list (an observer of the cache) -/
+theorem C06_gen_object_documented_model_every_call_list (a : PropArgs (Ten ℝ) ℝ) (hp0 : Heap (Ten ℝ)) (o : PropObj (Ten ℝ) ℝ) (h' : Heap (Ten ℝ))
+    (hi : pInit propOpsGrid a hp0 = some (o, h')) (hp : ∀ p, a.laser_channel_power = some p → p < hp0.size)
+    {h w : Nat} (hres : a.resolution = [(h : Int), (w : Int)]) (hw5 : 5 ≤ w) (hrf : a.rf = 1)
+    (hty : a.propagator_type = "forward" ∨ a.propagator_type = "back and forth")
+    (hme : a.method = "conventional" ∨ a.method = "multi-color")
+    (kern : ℝ → ℝ → CGrid ℝ (2 * h) (2 * w))
+    (hk : ∀ lam z, propagationKernelT a.propagation_type (2 * h) (2 * w) a.pixel_pitch lam z (a.aperture_samples.getD 0 0).toNat
+      (a.aperture_samples.getD 1 0).toNat (a.aperture_samples.getD 2 0).toNat (a.aperture_samples.getD 3 0).toNat = some (kern lam z)) :
+    ∃ dists ap, pInitCall propOpsGrid a hp0 = some (o.toSelf, h', (), pInitLog a) ∧
+      h'.get o.distances = some dists ∧ h'.get o.aperture = some ap ∧
+      ∀ (pre : List (PCall (Ten ℝ))) (u : Ten ℝ) (c d : Nat), (∀ x ∈ pre, x.good o h' ∧ x.apShape h w) → u.shape = [h, w] →
+        c < a.wavelengths.length → (d : Int) < o.number_of_depth_layers →
+        ∃ s1 ys s2 y, runSteps (pStep propOpsGrid) (o.toSelf, h') pre = some (s1, ys) ∧
+          pStep propOpsGrid s1 (.forward u (c : Int) (d : Int)) = some (s2, y) ∧
+          runSteps (pStep propOpsGrid) (o.toSelf, h') (pre ++ [.forward u (c : Int) (d : Int)]) = some (s2, ys ++ [y]) ∧
+          y.vals = [Ten.ofGrid (cropGrid (customDocumented (padGrid (Ten.toGrid h w u)) (objKernelGrid o kern dists c d)
+            (pre.foldl apGridStep (Ten.toGrid (2 * h) (2 * w) ap))))] := by
+  obtain ⟨e1, -, e3, e4, -, -, e7, -, -, -, e11, -⟩ := pInit_fields propOpsGrid a hp0 o h' hi
+  have hk' : ∀ lam z, propagationKernelT o.propagation_type (2 * h) (2 * w) o.pixel_pitch lam z (o.samp 0) (o.samp 1) (o.samp 2) (o.samp 3) = some (kern lam z) := by
+    intro lam z
+    simp only [PropObj.samp, e3, e4, e7]
+    exact hk lam z
+  obtain ⟨dists, ap, cp, hd, ha, -, hall⟩ := propagator_grid_forward_after a hp0 o h' hi hp hres hty hme kern hk'
+  refine ⟨dists, ap, gen_propagatorInitG_eq propOpsGrid a hp0 o h' hi, hd, ha, fun pre u c d hpre hu hc _ => ?_⟩
+  obtain ⟨s1, ys, s2, y, r1, r2, r3, r4⟩ := hall pre u c d (fun x hx => (hpre x hx).1) hu hc
+  refine ⟨s1, ys, s2, y, r1, r2, r3, ?_⟩
+  rw [r4, gen_customT_eq, C06_call_is_documented_model,
+    toGrid_pRefAp o (by rw [e1]; exact hres) (by rw [e11]; exact hrf) pre ap (fun x hx => (hpre x hx).2)]
+
+/-- the same statement read as "call `k` of every call list": every list of good calls on the constructed propagator runs (no call raises),
+    and whenever call number `k` is a forward call on an `[h, w]` field, its value is the documented model with the kernel of (channel, plane)
+    and the aperture the `set_aperture` calls among the FIRST `k` calls left - whatever the other calls before and after it are -/
+theorem C06_gen_object_documented_model_call_k (a : PropArgs (Ten ℝ) ℝ) (hp0 : Heap (Ten ℝ)) (o : PropObj (Ten ℝ) ℝ) (h' : Heap (Ten ℝ))
+    (hi : pInit propOpsGrid a hp0 = some (o, h')) (hp : ∀ p, a.laser_channel_power = some p → p < hp0.size)
+    {h w : Nat} (hres : a.resolution = [(h : Int), (w : Int)]) (hw5 : 5 ≤ w) (hrf : a.rf = 1)
+    (hty : a.propagator_type = "forward" ∨ a.propagator_type = "back and forth")
+    (hme : a.method = "conventional" ∨ a.method = "multi-color")
+    (kern : ℝ → ℝ → CGrid ℝ (2 * h) (2 * w))
+    (hk : ∀ lam z, propagationKernelT a.propagation_type (2 * h) (2 * w) a.pixel_pitch lam z (a.aperture_samples.getD 0 0).toNat
+      (a.aperture_samples.getD 1 0).toNat (a.aperture_samples.getD 2 0).toNat (a.aperture_samples.getD 3 0).toNat = some (kern lam z)) :
+    ∃ dists ap, h'.get o.distances = some dists ∧ h'.get o.aperture = some ap ∧
+      ∀ (xs : List (PCall (Ten ℝ))), (∀ x ∈ xs, x.good o h' ∧ x.apShape h w) →
+        ∃ s ys, runSteps (pStep propOpsGrid) (o.toSelf, h') xs = some (s, ys) ∧
+          ∀ (k : Nat) (u : Ten ℝ) (c d : Nat), xs[k]? = some (.forward u (c : Int) (d : Int)) → u.shape = [h, w] → c < a.wavelengths.length →
+            (d : Int) < o.number_of_depth_layers →
+            ∃ y, ys[k]? = some y ∧ y.vals = [Ten.ofGrid (cropGrid (customDocumented (padGrid (Ten.toGrid h w u)) (objKernelGrid o kern dists c d)
+              ((xs.take k).foldl apGridStep (Ten.toGrid (2 * h) (2 * w) ap))))] := by
+  obtain ⟨e1, -, e3, e4, -, -, e7, -, -, -, e11, -⟩ := pInit_fields propOpsGrid a hp0 o h' hi
+  have hk' : ∀ lam z, propagationKernelT o.propagation_type (2 * h) (2 * w) o.pixel_pitch lam z (o.samp 0) (o.samp 1) (o.samp 2) (o.samp 3) = some (kern lam z) := by
+    intro lam z
+    simp only [PropObj.samp, e3, e4, e7]
+    exact hk lam z
+  obtain ⟨dists, ap, hd, ha, hall⟩ := propagator_grid_call_k a hp0 o h' hi hp hres hty hme kern hk'
+  refine ⟨dists, ap, hd, ha, fun xs hxs => ?_⟩
+  obtain ⟨s, ys, erun, hvals⟩ := hall xs (fun x hx => (hxs x hx).1)
+  refine ⟨s, ys, erun, fun k u c d hx hu hc _ => ?_⟩
+  obtain ⟨y, ey, ev⟩ := hvals k u c d hx hu hc
+  refine ⟨y, ey, ?_⟩
+  rw [ev, gen_customT_eq, C06_call_is_documented_model,
+    toGrid_pRefAp o (by rw [e1]; exact hres) (by rw [e11]; exact hrf) (xs.take k) ap (fun x hx => (hxs x (List.mem_of_mem_take hx)).2)]
+
+/-- **the same for every reconstruction**: after ANY list `pre` of calls, `reconstruct(phases, amplitude, no_grad, get_complex)` returns a buffer
+    `V` whose slot `[frame f, plane d, channel c]` is - for every `f`, `d`, `c` in range -
+
+        crop_center( ifft2( ifftshift( (H(λ_c, z_d) · A) · fftshift( fft2( zero_pad( hologram f c ) ) ) ) ) )        (`get_complex`)
+
+    or its squared modulus, with `hologram f c = generate_complex_field(power[f][c] · amplitude[c], phases[f])` (`holoGrid`; `power` = the laser
+    powers IN FORCE: the tensor the last `set_laser_powers` of `pre` passed, else the constructor's - `cos`-mapped for 'multi-color'), the
+    amplitude given or all ones, and `A` the aperture in force.  Side conditions are the shapes the source needs in order not to raise: the
+    powers tensor is 2-d, amplitude planes and phase frames are `[h, w]`, at most three channels (`phase_scale` has three entries) -/
+theorem C06_gen_object_reconstruct_documented_model_every_call_list (a : PropArgs (Ten ℝ) ℝ) (hp0 : Heap (Ten ℝ)) (o : PropObj (Ten ℝ) ℝ)
+    (h' : Heap (Ten ℝ)) (hi : pInit propOpsGrid a hp0 = some (o, h')) (hp : ∀ p, a.laser_channel_power = some p → p < hp0.size)
+    {h w : Nat} (hres : a.resolution = [(h : Int), (w : Int)]) (hw5 : 5 ≤ w) (hrf : a.rf = 1)
+    (hty : a.propagator_type = "forward" ∨ a.propagator_type = "back and forth")
+    (hme : a.method = "conventional" ∨ a.method = "multi-color")
+    (kern : ℝ → ℝ → CGrid ℝ (2 * h) (2 * w))
+    (hk : ∀ lam z, propagationKernelT a.propagation_type (2 * h) (2 * w) a.pixel_pitch lam z (a.aperture_samples.getD 0 0).toNat
+      (a.aperture_samples.getD 1 0).toNat (a.aperture_samples.getD 2 0).toNat (a.aperture_samples.getD 3 0).toNat = some (kern lam z)) :
+    ∃ dists ap, h'.get o.distances = some dists ∧ h'.get o.aperture = some ap ∧
+      ∀ (pre : List (PCall (Ten ℝ))) (ph : Ten ℝ) (amp : Option (Ten ℝ)) (ng gc : Bool), (∀ x ∈ pre, x.good o h' ∧ x.apShape h w) →
+        ∃ s1 ys s2 y V cpv lp, runSteps (pStep propOpsGrid) (o.toSelf, h') pre = some (s1, ys) ∧
+          pStep propOpsGrid s1 (.reconstruct ph amp ng gc) = some (s2, y) ∧ y.vals = [V] ∧
+          h'.get (pRefPw o.channel_power pre) = some cpv ∧ pPowers propOpsGrid o cpv = some lp ∧
+          ∀ f d c : Nat, f < o.number_of_frames.toNat → d < o.number_of_depth_layers.toNat → c < a.wavelengths.length → c < 3 →
+            cpv.sh [(f : Int), (c : Int)] = [] →
+            (Ten.prepareReconstruct amp (reconPhases ph) o.number_of_channels o.resolution o.resolution_factor).1.sh [(c : Int)] = [h, w] →
+            (Ten.prepareReconstruct amp (reconPhases ph) o.number_of_channels o.resolution o.resolution_factor).2.sh [(f : Int)] = [h, w] →
+            V.getIdx [(f : Int), (d : Int), (c : Int)] = slotValue gc (Ten.ofGrid (cropGrid (customDocumented
+              (padGrid (holoGrid h w lp (Ten.prepareReconstruct amp (reconPhases ph) o.number_of_channels o.resolution o.resolution_factor).1
+                (Ten.prepareReconstruct amp (reconPhases ph) o.number_of_channels o.resolution o.resolution_factor).2 f c))
+              (objKernelGrid o kern dists c d) (pre.foldl apGridStep (Ten.toGrid (2 * h) (2 * w) ap))))) := by
+  obtain ⟨e1, -, e3, e4, -, -, e7, -, -, -, e11, -⟩ := pInit_fields propOpsGrid a hp0 o h' hi
+  have hk' : ∀ lam z, propagationKernelT o.propagation_type (2 * h) (2 * w) o.pixel_pitch lam z (o.samp 0) (o.samp 1) (o.samp 2) (o.samp 3) = some (kern lam z) := by
+    intro lam z
+    simp only [PropObj.samp, e3, e4, e7]
+    exact hk lam z
+  obtain ⟨dists, ap, hd, ha, hall⟩ := propagator_grid_reconstruct_after a hp0 o h' hi hp hres hty hme kern hk'
+  refine ⟨dists, ap, hd, ha, fun pre ph amp ng gc hpre => ?_⟩
+  obtain ⟨s1, ys, s2, y, V, cpv, lp, r1, r2, r3, -, r5, r6, r7⟩ := hall pre ph amp ng gc (fun x hx => (hpre x hx).1)
+  refine ⟨s1, ys, s2, y, V, cpv, lp, r1, r2, r3, r5, r6, fun f d c hf hdl hc hc3 h1 h2 h3 => ?_⟩
+  rw [r7 f d c hf hdl hc hc3 h1 h2 h3, gen_customT_eq, C06_call_is_documented_model,
+    toGrid_pRefAp o (by rw [e1]; exact hres) (by rw [e11]; exact hrf) pre ap (fun x hx => (hpre x hx).2)]
+
+/-- without `get_complex` the slot holds the intensity `|field|²`, element by element -/
+theorem C06_gen_object_reconstruct_intensity (R : Ten ℝ) (r : List Int) : (slotValue false R).el r = ⟨Cx.normSq (R.el r), 0⟩ :=
+  slotValue_intensity_el R r
+
+/-- what `dists` and `ap` of the previous theorem are: the distances are the CALLER'S tensor when one is passed to the constructor and
+    `linspace(-volume_depth / 2, volume_depth / 2, n) + image_location_offset` otherwise; the aperture grid is the caller's `[h, w]` aperture
+    zero-padded, or the circular mask of the padded size whose radius is `aperture_size` or the longer side -/
+theorem C06_gen_object_distances_and_aperture (a : PropArgs (Ten ℝ) ℝ) (hp0 : Heap (Ten ℝ)) (o : PropObj (Ten ℝ) ℝ) (h' : Heap (Ten ℝ))
+    (hi : pInit propOpsGrid a hp0 = some (o, h')) (hp : ∀ p, a.laser_channel_power = some p → p < hp0.size)
+    {h w : Nat} (hres : a.resolution = [(h : Int), (w : Int)]) (hrf : a.rf = 1)
+    (dists ap : Ten ℝ) (hd : h'.get o.distances = some dists) (ha : h'.get o.aperture = some ap) :
+    (∀ l, a.distances = some l → hp0.get l = some dists) ∧
+    (a.distances = none → ∀ d : Nat, (dists.el [(d : Int)]).re =
+      linspace (-a.volume_depth / 2) (a.volume_depth / 2) a.number_of_depth_layers.toNat d + a.image_location_offset) ∧
+    (∀ l v, a.aperture = some l → hp0.get l = some v → v.shape = [h, w] → Ten.toGrid (2 * h) (2 * w) ap = padGrid (Ten.toGrid h w v)) ∧
+    (a.aperture = none → Ten.toGrid (2 * h) (2 * w) ap = Ten.circMaskGrid (2 * h) (2 * w)
+      (match a.aperture_size with | some s => s.val.re | none => if (h : ℝ) < (w : ℝ) then (w : ℝ) else (h : ℝ))) := by
+  obtain ⟨d1, d2⟩ := pInit_distances propOpsGrid propLaws_propOpsGrid a hp0 o h' hi hp dists hd
+  obtain ⟨a1, a2⟩ := pInit_aperture propOpsGrid a hp0 o h' hi ap ha
+  refine ⟨d1, fun hn d => ?_, fun l v hl hv hs => ?_, fun hn => ?_⟩
+  · rw [d2 hn]
+    exact defaultDistances_el _ _ _ d
+  · obtain ⟨X, eX, eg⟩ := apertureValue_given (h := h) (w := w) a.rf v hs a.aperture_size
+    have := a2 l v hl hv
+    rw [hres, eX] at this
+    injection this with this
+    rw [← this, eg]
+  · obtain ⟨X, eX, eg⟩ := apertureValue_default (h := h) (w := w) a.aperture_size
+    have := a1 hn
+    rw [hres, hrf, eX] at this
+    injection this with this
+    rw [← this]
+    exact eg.trans (by cases a.aperture_size <;> rfl)
+
+/-- **back and forth = one propagation by the net distance**, on the regenerated object: with the unit-modulus, distance-additive kernels
+    ('Angular Spectrum', 'Transfer Function Fresnel') the kernel a 'back and forth' propagator multiplies with for (channel, plane) is the
+    kernel of the single distance `z_d - image_location_offset` - the zero-mode distance drops out -/
+theorem C06_gen_object_back_and_forth_net {h w : Nat} (o : PropObj (Ten ℝ) ℝ) (hb : o.propagator_type = "back and forth") (dists : Ten ℝ) (c d : Nat) :
+    objKernelGrid (h := h) (w := w) o (fun lam z => asKernel (2 * h) (2 * w) o.pixel_pitch lam z) dists c d =
+      asKernel (2 * h) (2 * w) o.pixel_pitch (o.wavelengths.getD c 0) ((dists.el [(d : Int)]).re - o.image_location_offset) ∧
+    objKernelGrid (h := h) (w := w) o (fun lam z => tfKernel (2 * h) (2 * w) o.pixel_pitch lam (wavenumber lam) z) dists c d =
+      tfKernel (2 * h) (2 * w) o.pixel_pitch (o.wavelengths.getD c 0) (wavenumber (o.wavelengths.getD c 0))
+        ((dists.el [(d : Int)]).re - o.image_location_offset) := by
+  have hf : ¬ o.propagator_type = "forward" := by rw [hb]; decide
+  constructor
+  · simp only [objKernelGrid, hf, if_false]
+    apply Grid.ext_get; intro i j
+    rw [CGrid.get_mul, as_add, show o.zero_mode_distance.val.re + -(o.zero_mode_distance.val.re + o.image_location_offset - (dists.el [(d : Int)]).re)
+      = (dists.el [(d : Int)]).re - o.image_location_offset by ring]
+  · simp only [objKernelGrid, hf, if_false]
+    apply Grid.ext_get; intro i j
+    rw [CGrid.get_mul, tf_add, show o.zero_mode_distance.val.re + -(o.zero_mode_distance.val.re + o.image_location_offset - (dists.el [(d : Int)]).re)
+      = (dists.el [(d : Int)]).re - o.image_location_offset by ring]
+
+/-- the kernels the previous theorems need: the regenerated dispatch `get_propagation_kernel` gives the model kernels for the three
+    transfer-function methods, at every size (so `hk` of `C06_gen_object_documented_model_every_call_list` holds for them) -/
+theorem C06_gen_object_kernels_of_the_dispatch (n m : Nat) (dx lam z : ℝ) (s0 s1 s2 s3 : Nat) :
+    propagationKernelT "Angular Spectrum" n m dx lam z s0 s1 s2 s3 = some (asKernel n m dx lam z) ∧
+    propagationKernelT "Bandlimited Angular Spectrum" n m dx lam z s0 s1 s2 s3 = some (blKernel n m dx lam z) ∧
+    propagationKernelT "Transfer Function Fresnel" n m dx lam z s0 s1 s2 s3 = some (tfKernel n m dx lam (wavenumber lam) z) := by
+  simp only [gen_propagationKernelT_eq, torchKernel]
+  refine ⟨by simp, by simp, by simp⟩
+
+/-- non-vacuity: a 'back and forth' angular-spectrum propagator of resolution `[1, 5]` with one wavelength, two default planes and the
+    default aperture IS built by `pInit` with the grid-model operations, with `resolution_factor = 1`; its kernels are the ones
+    `C06_gen_object_kernels_of_the_dispatch` lists, so every hypothesis of the call-list theorems above is satisfiable -/
+noncomputable def exPropArgs : PropArgs (Ten ℝ) ℝ :=
+  { resolution := [1, 5], wavelengths := [1], pixel_pitch := 1, resolution_factor := 1, number_of_frames := 1, number_of_depth_layers := 2,
+    volume_depth := 1, image_location_offset := 0, propagation_type := "Angular Spectrum", propagator_type := "back and forth",
+    back_and_forth_distance := 1, laser_channel_power := none, aperture := none, aperture_size := none, distances := none,
+    aperture_samples := [2, 2, 2, 2], method := "conventional" }
+
+example : (pInit (propOpsGrid : PropOps (Ten ℝ) ℝ) exPropArgs Heap.empty).isSome = true ∧ exPropArgs.rf = 1 ∧
+    exPropArgs.resolution = [((1 : Nat) : Int), ((5 : Nat) : Int)] ∧
+    (∀ lam z, propagationKernelT exPropArgs.propagation_type (2 * 1) (2 * 5) exPropArgs.pixel_pitch lam z 2 2 2 2 = some (asKernel (2 * 1) (2 * 5) 1 lam z)) := by
+  refine ⟨?_, ?_, rfl, fun lam z => (C06_gen_object_kernels_of_the_dispatch _ _ _ lam z 2 2 2 2).1⟩
+  · simp [pInit, exPropArgs, pInitDistances, pInitPowers, Heap.getOpt, pApertureValue, PropArgs.rf]
+  · simp [PropArgs.rf, exPropArgs]
 
 end Odak
